@@ -42,6 +42,8 @@ func C01(r *core.Run) {
 	leniency(r)                                                                                         // the short enum name the encoder writes is looked up as given before any prefix is stripped
 	rules.AppendAlias(r, []string{"lib/j5schema", "lib/j5reflect", codecRel})                           // the proto path of a flattened property is its own: no two properties share a backing array
 	rules.PoolAlias(r, []string{codecRel})                                                              // encode(m) stays the encoding of m: it is not memory a later encode writes over
+	rootKindDecided(r)                                                                                  // the content of an Any is a root message: an object or a oneof, written and read accordingly
+	mapKeysNotInterpreted(r)                                                                            // a map key is any string: the shared member loop keeps none for itself
 }
 
 // encodeDecodeMatrix (R-FLOW/F1): what the encoder writes for a kind, the
